@@ -77,6 +77,9 @@ func (r *FeatureRemote) UpdateData(persist bool, function model.FunctionType, da
 }
 
 func (r *FeatureRemote) SetOperations(functions []model.FunctionPropertyType) {
+	r.muxOperations.Lock()
+	defer r.muxOperations.Unlock()
+
 	r.operations = make(map[model.FunctionType]api.OperationsInterface)
 	for _, sf := range functions {
 		if sf.PossibleOperations == nil || sf.Function == nil {
